@@ -160,6 +160,26 @@ def witness_c09c(ctx):
         ctx.violation("same-call-same-result", dict(case=c, fft_state="none", fft_after_first=n1, fft_after_second=n2), seam="hvsrpy.process twice")
 
 
+def witness_c09e(ctx):
+    """known finding C09-e: the FFT length stored in the settings object only ever grows: process(short), process(long), process(short)
+    with ONE settings object -> the third result differs from the first (n = 32768, then 65536 for both later calls)"""
+    rng = np.random.default_rng(19)
+    short = pg.gen_record(rng, n=300, dt=0.01, scale=1.0)
+    long_ = pg.gen_record(rng, n=33000, dt=0.01, scale=1.0)
+    sm = dict(operator="konno_and_ohmachi", bandwidth=40.0, center_frequencies_in_hz=[1.0, 2.0, 5.0, 10.0, 20.0])
+    c = dict(family="trad", method="geometric_mean", smoothing=sm, width=0.1, fft=None, policy=pg.POLICIES[0], records=[short])
+    settings = pg.make_settings(c)
+    s_rec, l_rec = [pg.make_srecord(short)], [pg.make_srecord(long_)]
+    r1 = pg.run_impl(c, s_rec, settings); n1 = pg.fft_token(settings.fft_settings)
+    pg.run_impl(dict(c, records=[long_]), l_rec, settings); n2 = pg.fft_token(settings.fft_settings)
+    r3 = pg.run_impl(c, s_rec, settings); n3 = pg.fft_token(settings.fft_settings)
+    mo = run_driver(["prepfft unset 300", "prepfft 32768 33000", "prepfft 65536 300"])
+    ctx.notes.append(f"C09-e witness: fft n after short/long/short = {n1}/{n2}/{n3}; model prepfft: {mo[0]} / {mo[1]} / {mo[2]}")
+    if isinstance(r1["result"], str) or isinstance(r3["result"], str) or not np.array_equal(r1["result"], r3["result"]):
+        ctx.violation("same-call-same-result", dict(history="short-long-short", fft_after=[n1, n2, n3], case=dict(c, records="300-sample record; a 33000-sample record in between")),
+                      seam="hvsrpy.process three times with one settings object")
+
+
 def fft_state_correspondence(ctx, rng):
     """settings.fft_settings after process vs the model's prepareFft, all four branches"""
     lines, exp = [], []
@@ -191,6 +211,7 @@ def run(ctx):
     ctx.assumptions += ["deep snapshots compare samples bit-for-bit via uint64 views"]
     rng = np.random.default_rng(ctx.seed)
     witness_c09c(ctx)
+    witness_c09e(ctx)
     fft_state_correspondence(ctx, rng)
     n = ctx.budget(48, 600)
     for i in range(n):
